@@ -2,7 +2,7 @@
 import enums
 from common import Result
 from e3 import Config, Subj
-from e3check import compare_transcripts, explore
+from e3check import compare_transcripts, decl_key, explore
 from enums import ALL_REPRS, REPRS, family_A, family_F, family_H, family_L, family_M, family_P, family_R
 
 QUICK_L_REPRS = ["i8", "u8", "i16", "u64"]
@@ -190,7 +190,7 @@ def c04(tier):
     subs += sorted_name_subjects([("from_str", {}), "names"], "xn_") + sorted_name_subjects([("FromStr", {}), "names", "as_str"], "xm_")
     merged = explore(res, "%s/c04" % tier, subs, phases=["from_str"])
     # with duplicate names the same variant must be chosen in every mode: compare transcript hashes per enum
-    compare_transcripts(res, merged, subs, lambda s: s.sid.split("_")[0], "mode-dependent-from_str",
+    compare_transcripts(res, merged, subs, decl_key, "mode-dependent-from_str",
                         items=("from_str", "FromStr::from_str"))
     finish_common(res, decls, subs,
                   "states = (enum, string) pairs: every name, every single-edit neighbour (delete/insert/substitute/case flip), "
